@@ -20,6 +20,7 @@ mod raster;
 mod clip;
 mod pipe;
 mod rand;
+mod color;
 
 use std::io::{BufRead, BufWriter, Write};
 
@@ -68,6 +69,7 @@ fn subsystem(name: &str) -> Option<(GenFn, ExecFn)> {
         "clip" => (clip::gen, clip::exec),
         "pipe" => (pipe::gen, pipe::exec),
         "rand" => (rand::gen, rand::exec),
+        "color" => (color::gen, color::exec),
         _ => return None,
     })
 }
